@@ -755,3 +755,20 @@ package tds
 //@ func (fieldFmtBase).writeToBase like FieldFmt.WriteTo
 //@ func (fieldFmtBasePrecision).writeToPrecision like FieldFmt.WriteTo
 //@ func (fieldFmtBaseScale).writeToScale like FieldFmt.WriteTo
+
+//@ # ---------------------------------------------------------------------
+//@ # Receive dispatch (C02 / C10 / C14)
+//@ # hooks are client code: they cannot reach the unexported state of the library
+//@ func functype:EnvChangeHook
+//@   modifies
+//@ func functype:EEDHook
+//@   modifies
+//@ typeinv Channel { [rx-queue] this.queueRx.$readable && !this.queueRx.$writable && chwf(this.queueRx) }
+//@ typeinv Channel { [hooks] this.envChangeHooksLock != nil && this.eedHooksLock != nil }
+//@ typeinv Channel { [open-chans] !this.closed ==> this.packageCh != nil && this.errCh != nil && !closed(this.packageCh) && !closed(this.errCh) }
+//@ typeinv Channel { [lastpkg] tag(this.lastPkgRx) == 0 || payload(this.lastPkgRx) != 0 }
+//@ typeinv Channel { [hooks-nonnil] (forall i int :: 0 <= i && i < len(this.envChangeHooks) ==> this.envChangeHooks[i] != nil) && (forall i int :: 0 <= i && i < len(this.eedHooks) ==> this.eedHooks[i] != nil) }
+//@ func (*Channel).WritePacket
+//@   requires [packet] packet != nil && allocated(packet) && allocated(packet.Data)
+//@   requires [complete] packet.Header.Length == 8 + len(packet.Data)
+//@   requires [not-queued] forall j int :: 0 <= j && j < len(tdsChan.queueRx.queue) ==> tdsChan.queueRx.queue[j] != packet
